@@ -155,7 +155,7 @@ def sh(cmd, timeout, cwd=None, env=None):
 
 
 GEN_TARGETS = {'kernels': 'Gen/Kernels.v', 'validators': 'Gen/Validators.v', 'signatures': 'Gen/Signatures.v', 'classes': 'Gen/Classes.v',
-               'projection': 'Gen/Projection.v', 'thermal': 'Gen/Thermal.v', 'deviceset': 'Gen/DeviceSet.v', 'functions': 'Gen/Functions.v', 'mfdeviceset': 'Gen/MFDeviceSet.v', 'storage': 'Gen/Storage.v', 'constraints': 'Gen/Constraints.v', 'solve': 'Gen/Solve.v'}
+               'projection': 'Gen/Projection.v', 'thermal': 'Gen/Thermal.v', 'deviceset': 'Gen/DeviceSet.v', 'functions': 'Gen/Functions.v', 'mfdeviceset': 'Gen/MFDeviceSet.v', 'storage': 'Gen/Storage.v', 'constraints': 'Gen/Constraints.v', 'solve': 'Gen/Solve.v', 'utils': 'Gen/Utils.v'}
 
 
 SNAPSHOTS = os.path.join(VERIF, 'translator', 'snapshots')
@@ -509,7 +509,7 @@ def run_property(mod, tier, seed, replay=None):
   for g in getattr(mod, 'GEN', []):
     obligations.append('translator:%s' % g)
 
-  for g in ('classes', 'projection', 'thermal', 'deviceset', 'functions', 'mfdeviceset', 'storage', 'constraints', 'solve'):
+  for g in ('classes', 'projection', 'thermal', 'deviceset', 'functions', 'mfdeviceset', 'storage', 'constraints', 'solve', 'utils'):
     if g in getattr(mod, 'GEN', []):
       try:
         txt = open(os.path.join(COQ, GEN_TARGETS[g])).read()
